@@ -1,4 +1,5 @@
 import os
+import pandas as pd
 import sys
 sys.path.insert(0, os.path.dirname(os.path.abspath(__file__)))
 from common import *  # noqa
@@ -48,7 +49,8 @@ def mk_sizer(c, broker):
 def mk_universe(u):
     if u[0] == 'static':
         return StaticUniverse(list(u[1]))
-    return DynamicUniverse(dict((a, (None if e is None else ts(e))) for a, e in u[1]))
+    missing = pd.NaT if (len(u) > 2 and u[2] == 'nat') else None      # a missing entry date as None or as pandas' NaT
+    return DynamicUniverse(dict((a, (missing if e is None else ts(e))) for a, e in u[1]))
 
 
 def handler(c):
